@@ -126,6 +126,13 @@ class C08(Prop):
                     extra[k] = known[k]
                 root["bound"] = [[k, v] for k, v in extra.items()]
                 ops["bind"] = ext
+            consumed = {dict(n.get("inRen", [])).get(q[0], q[0]) for n in root["nodes"] for q in n.get("params", [])}
+            mids = [o for o in outs if o in consumed and o not in dict(root.get("bound", []))]
+            if mids and rng.random() < 0.12 and not any(n["kind"] == "graph" for n in root["nodes"]):
+                # bind an INTERMEDIATE value (allowed: "a graph input or output"): its producer is by-passed
+                m = rng.choice(mids)
+                root["bound"] = list(root.get("bound", [])) + [[m, 5]]
+                ops["bind_mid"] = [m]
             if outs and rng.random() < 0.3:
                 root["selected"] = rng.sample(outs, rng.randint(1, min(2, len(outs))))
                 ops["select"] = root["selected"]
@@ -375,6 +382,10 @@ class C08(Prop):
                 return f" — the supplied {sorted(hit)[0]!r} by-passes its producer {name!r}, whose input {omitted!r} is then not demanded (entry-point by-pass)"
             return None
 
+        produced = {o for n in case["program"][-1]["nodes"] for o in n.get("dataOuts", [])}
+        internal = sorted(k for k, _ in case["program"][-1].get("bound", []) if k in produced)
+        inote = (f" (a name the graph itself produces is bound: {internal[0]!r} — the reported spec ignores that the binding injects the value and "
+                 "by-passes / seeds its producer)") if internal else ""
         req_all = set(obs["effspec"]["required"])
         for kind, r0, outcome in obs.get("derived", []):
             if kind == "unbind-then-omit" and outcome != "MissingInputError" and case["program"][-1].get("entrypoints"):
@@ -382,19 +393,21 @@ class C08(Prop):
                 if note:
                     return f"after bind({r0}=...).unbind({r0!r}) omitting the again-required {r0!r} was not rejected (outcome {outcome})" + note
             if kind == "bind-then-omit" and outcome == "MissingInputError":
-                return f"after bind({r0}=...) the run with every other required input supplied was rejected with MissingInputError"
+                return f"after bind({r0}=...) the run with every other required input supplied was rejected with MissingInputError" + inote
             if kind == "unbind-then-omit" and outcome != "MissingInputError":
-                return f"after bind({r0}=...).unbind({r0!r}) omitting the again-required {r0!r} was not rejected (outcome {outcome})"
+                return f"after bind({r0}=...).unbind({r0!r}) omitting the again-required {r0!r} was not rejected (outcome {outcome})" + inote
         for t in obs["trials"]:
             if t["omit"] is None:
                 if t["outcome"] == "MissingInputError":
                     return f"all required inputs (and one listed entry point) supplied, yet rejected with MissingInputError; values={t['values']}"
+                if t["outcome"] != "ran" and not t["outcome"].startswith("ran:"):
+                    return f"all required inputs (and one listed entry point) supplied, yet the call was rejected with {t['outcome']}; values={t['values']}" + inote
                 if t["outcome"].startswith("ran:"):
                     return f"all required inputs (and one listed entry point) supplied and accepted, yet the run then failed with {t['outcome'][4:]}: something else was needed; values={t['values']}"
             else:
                 if t["outcome"] != "MissingInputError":
                     note = bypass(t["omit"], {k for k, _ in t["values"]}) if case["program"][-1].get("entrypoints") else None
-                    return f"required input {t['omit']!r} omitted but the call was not rejected with MissingInputError (outcome {t['outcome']})" + (note or "")
+                    return f"required input {t['omit']!r} omitted but the call was not rejected with MissingInputError (outcome {t['outcome']})" + (note or inote)
                 if t["calls"] or t["events"] or t["shutdowns"]:
                     return f"rejected call invoked {t['calls']} node functions and delivered {t['events']} events / {t['shutdowns']} shutdowns"
         return None
@@ -440,6 +453,8 @@ class C08(Prop):
         return None
 
     def signature(self, case: dict, obs: Any, why: str) -> str:
+        if "(a name the graph itself produces is bound" in why:
+            return "site:compute_input_spec/bound-internal-name"      # one mechanism (known finding C08-F2)
         if "(entry-point by-pass)" in why:
             return "site:validate_inputs/entry-point-by-pass"      # one mechanism (known finding C08-F1), whatever the program
         return "case:" + canonical_hash(case)
